@@ -107,6 +107,11 @@ P3_CALLS = [
     ["type", "UL", [1.5, 2.5], {}], ["type", "UL", [1, 2, 3], {}], ["type", "UL", ["1", "2"], {}], ["type", "UD", 3.5, {}], ["type", "UD", 3.0, {}],
     ["type", "UD", "7", {}], ["type", "UAG", {"name": "g"}, {}], ["type", "UAG", {"name": "root", "level": 9}, {}], ["type", "UAG", {"name": "x", "level": "y"}, {}],
     ["from", "Item", {"n": 1, "ul": [1, 2]}, {}], ["from", "Item", {"n": 1, "ul": [0.5]}, {}],
+    # two fields / parameters that each declare their own dependencies, given alone and together
+    ["from", "Dep", {"p": 1, "x": 1}, {}], ["from", "Dep", {"p": 1, "q": 1, "x": 1, "y": 1}, {}], ["from", "Dep", {"p": 1, "q": 2, "x": 1}, {}],
+    ["from", "Dep", {"q": 1, "y": 2}, {}], ["from", "Dep", {"q": 5}, {}], ["from", "Dep", {"p": "3", "q": "4", "x": 0, "y": 0}, {"data_first_search": True}],
+    ["call", "fd", {"kwargs": {"p": 1, "x": 1}}, {}], ["call", "fd", {"kwargs": {"p": 1, "q": 1, "x": 1, "y": 1}}, {}], ["call", "fd", {"kwargs": {"q": 1, "y": 1}}, {}],
+    ["call", "fd", {"kwargs": {"q": 1, "x": 1}}, {}],
 ]
 
 
@@ -159,7 +164,15 @@ class Admin{uid}(Schema):
 class Guest{uid}(Schema):
     name: str
 UAG = Rule.parse_annotation(Union[Admin{uid}, Guest{uid}])
-Item, Other = {I}, {O}
+class Dep{uid}({base}):
+    p: int = Field(dependencies=['x'], default=0)
+    q: int = Field(dependencies=['y'], default=0)
+    x: int = 0
+    y: int = 0
+@parse
+def fd(p: int = utype.Param(0, dependencies=['x']), q: int = utype.Param(0, dependencies=['y']), x: int = 0, y: int = 0):
+    return p, q
+Item, Other, Dep = {I}, {O}, Dep{uid}
 """
     return src, (base, opts, late, child_ann, u_ann)
 
